@@ -30,17 +30,24 @@
        Go/Fork/Pool*, NetworkMachine.Export (self-deadlock: RLock then Lock
        of schemaMx) and its remote (network) mutations.
 
-   [variant]: Cold = stateNamesExport may be nil (StateNames() takes its write
-   branch); Warm = StateNames() was called since the last VerifyStates /
-   SetSchema / Import, the write branch is dead; Fixed = the candidate repairs
-   (corpus/C12/fix_c12_*.diff): stateNamesExport becomes an atomic.Pointer,
-   VerifyStates writes under activeStatesMx + schemaMx exclusively, Has reads
-   under schemaMx, Import takes activeStatesMx exclusively, NetworkMachine
-   .Tracers takes tracersMx, updateClock takes logEntriesLock. SetSchema is
-   not repaired.
+   [variant]:
+     Cur    = /repo as it is (HEAD 031458c). stateNamesExport is an
+              atomic.Pointer (f998d9b), so a first-time ("cold") StateNames()
+              and a later one are the same entry; NetworkMachine.Tracers takes
+              tracersMx (f656cf0); updateClock swaps logEntries under
+              logEntriesLock (031458c). The harness is judged against Cur.
+     Fixed  = Cur + the candidate repairs that are NOT applied
+              (corpus/C12/fix_c12_machine.diff): VerifyStates writes under
+              activeStatesMx + schemaMx exclusively, Has reads under schemaMx,
+              Import takes activeStatesMx exclusively. SetSchema is not
+              repaired.
+     Legacy = the code before the three commits (StateNames() writes the
+              export copy under schemaMx.RLock when it is nil; Tracers() under
+              clockMx; updateClock touches logEntries without the lock); kept
+              only to state what the repairs removed.
 
-   The table follows /repo at commit 296eb40 ("fix: WhenQuery with a context
-   no longer panics").
+   The table follows /repo at commit 031458c ("fix: NetworkMachine.updateClock
+   takes the log entries under logEntriesLock").
 
    Proof-free. *)
 From Coq Require Import List Bool Arith String.
@@ -140,7 +147,7 @@ Definition field_class (f : field) : nat :=
   else if Nat.ltb f 70 then 9      (* NetworkMachine *)
   else 0.
 
-Inductive variant := Cold | Warm | Fixed.
+Inductive variant := Legacy | Cur | Fixed.
 
 Record entry := E { e_name : string; e_prog : prog }.
 
@@ -157,18 +164,17 @@ Variable v : variant.
 
 Definition p_flags : prog := [Atomic a_flags].
 
-(* StateNames(), machine.go:3155 *)
+(* StateNames(): Load; when nil: Clone(m.stateNames), Store *)
 Definition p_stateNames : prog :=
   match v with
-  | Cold => locked schemaMx Sh
+  | Legacy => locked schemaMx Sh
       [Read stateNamesExport; Read stateNames; Write stateNamesExport; Read stateNamesExport]
-  | Warm => locked schemaMx Sh [Read stateNamesExport]
-  | Fixed => locked schemaMx Sh [Atomic stateNamesExport; Read stateNames; Atomic stateNamesExport]
+  | _ => locked schemaMx Sh [Atomic stateNamesExport; Read stateNames; Atomic stateNamesExport]
   end.
 
-(* the writers' reset of the export copy *)
+(* the writers' reset of the export copy: Store(nil) *)
 Definition p_resetExport : prog :=
-  match v with Fixed => [Atomic stateNamesExport] | _ => [Write stateNamesExport] end.
+  match v with Legacy => [Write stateNamesExport] | _ => [Atomic stateNamesExport] end.
 
 Definition p_schemaSafe : prog := locked schemaMx Sh [Read schema].
 Definition p_index : prog := p_flags ++ p_stateNames.
@@ -431,16 +437,16 @@ Definition p_nmSubsAll : prog :=
   [Read nmQueueTick] ++
   locked nmSubsMx Ex [Read nmSubsQueue; Write nmSubsQueue] ++
   locked nmSubsMx Ex [Read nmSubsQuery; Write nmSubsQuery; Read nmSubsClock; Read nmMachClock].
-(* NetMachInternal.Lock() + UpdateClock(), netmach.go:1336: logEntries is
-   read and reset without logEntriesLock; queueFlush reads the queue indexes
-   without sm.Mx *)
+(* NetMachInternal.Lock() + UpdateClock(): logEntries is swapped under
+   logEntriesLock since 031458c (without it before); queueFlush reads the
+   queue indexes without sm.Mx (protected by clockMx) *)
 Definition p_nmUpdateClock : prog :=
   Acq nmClockMx Ex ::
   locked nmTracersMx Ex
     ([Read nmMachTime; Read nmMachClock] ++ p_nmActive ++ p_nmStateNames ++ p_nmStateNames ++
      (match v with
-      | Fixed => locked nmLogLock Ex [Read nmLogEntries; Write nmLogEntries]
-      | _ => [Read nmLogEntries; Write nmLogEntries]
+      | Legacy => [Read nmLogEntries; Write nmLogEntries]
+      | _ => locked nmLogLock Ex [Read nmLogEntries; Write nmLogEntries]
       end) ++
      [Atomic a_nmCurTx; Read nmTracers;
       Write nmMachTime; Write nmMachClock; Write nmMachTick; Read nmQueueTick] ++
@@ -474,11 +480,11 @@ Definition p_nmNewStateCtx : prog :=
   locked nmClockMx Ex
     (locked nmSubsMx Ex ([Read nmSubsStateCtx; Read nmSubsClock; Read nmMachClock;
                         Write nmSubsStateCtx] ++ p_nmLog)).
-(* netmach.go:1327: Tracers() takes clockMx, the writers take tracersMx *)
+(* Tracers(): tracersMx.RLock since f656cf0 (clockMx before) *)
 Definition p_nmTracers : prog :=
   match v with
-  | Fixed => locked nmTracersMx Sh [Read nmTracers]
-  | _ => locked nmClockMx Ex [Read nmTracers]
+  | Legacy => locked nmClockMx Ex [Read nmTracers]
+  | _ => locked nmTracersMx Sh [Read nmTracers]
   end.
 Definition p_nmTracerBind : prog :=
   locked nmTracersMx Ex ([Read nmTracers; Write nmTracers] ++ p_nmLog).
@@ -575,20 +581,16 @@ End Blocks.
 
 Local Open Scope string_scope.
 
-(* the methods whose OWN locking is insufficient (every unprotected pair of
-   the Warm table involves one of them) *)
-Definition culprits : list string :=
-  ["VerifyStates"; "SetSchema"; "Import"; "NM.Tracers"; "NM.Log"].
+(* the methods whose OWN locking is insufficient in /repo as it is (every
+   unprotected pair of the Cur table involves one of them) *)
+Definition culprits : list string := ["VerifyStates"; "SetSchema"; "Import"].
 
-(* the methods that reset the export copy of the state names: a program that
-   runs one of them is Cold whatever happened before *)
-Definition resetters : list string := ["VerifyStates"; "SetSchema"; "Import"].
-
-(* entries that do not follow the guard discipline [guards] below (on the Cold
-   table: every entry that can run StateNames()'s write branch as well) *)
+(* entries that do not follow the guard discipline [guards] below (on the
+   Legacy table: every entry that can run StateNames()'s write branch, and
+   NM.Tracers, as well) *)
 Definition discipline_exceptions : list string :=
   ["Has"; "Has1"; "WhenNot"; "WhenNot1"; "Import"; "VerifyStates"; "SetSchema";
-   "NM.UpdateClock"; "NM.WhenNot1"; "NM.Tracers"].
+   "NM.UpdateClock"; "NM.WhenNot1"].
 
 (* Go identifiers of the modelled fields, per package, for attributing a race
    report's source lines to a field *)
@@ -621,9 +623,6 @@ Definition field_idents : list (string * string * field) :=
 
 Local Close Scope string_scope.
 
-Definition is_resetter (name : string) : bool :=
-  existsb (String.eqb name) resetters.
-
 Definition breaks_discipline (name : string) : bool :=
   existsb (String.eqb name) discipline_exceptions.
 
@@ -640,7 +639,7 @@ Definition culprits_v (v : variant) : list string :=
 Definition is_culprit_v (v : variant) (name : string) : bool :=
   existsb (String.eqb name) (culprits_v v).
 
-Definition is_culprit (name : string) : bool := is_culprit_v Warm name.
+Definition is_culprit (name : string) : bool := is_culprit_v Cur name.
 
 Definition safe_entries (v : variant) : list entry :=
   filter (fun e => negb (is_culprit_v v (e_name e))) (api_table v).
